@@ -21,7 +21,7 @@ pub const ASSUMPTIONS: &[&str] = &[
 
 const WORDS: &[&str] = &[
     "abc", "amar", "onno", "onnogulo", "abce", "smile", "coffee", "a", "\"ami\"", "(as)", "rwp", "h<qz", "kmpiu", "/i", "[k]a", "ik/k", "abcgulo", "academy", "academyr",
-    "park", "parke", "ami", "sesh.", "kotha", "boi", "boier", "hvsi", "vmi", "cool", ":)", "k/Z", "A>a",
+    "park", "parke", "ami", "sesh.", "kotha", "boi", "boier", "hvsi", "vmi", "cool", ":)", "k/Z", "A>a", "sesh", "onno", "a", "sesher", "o", "o.",
 ];
 
 #[derive(Clone, Debug, Serialize, Deserialize, Hash)]
@@ -56,7 +56,15 @@ pub struct Case {
     pub h1: Vec<WordStep>,
     pub edit: Edit,
     pub h2: Vec<WordStep>,
+    /// a learned-selection store that exists before the context is created
+    #[serde(default)]
+    pub store0: bool,
+    /// an earlier update-engine (to this configuration) followed by more words, before the edit
+    #[serde(default)]
+    pub mid: Option<(String, Vec<WordStep>)>,
 }
+
+const STORE0: &str = "{\"sesh\":\"\u{09B6}\u{09C7}\u{09B7}\",\"onno\":\"\u{0985}\u{09A8}\u{09CD}\u{09AF}\",\"a\":\"\u{0986}\u{0983}\",\"park\":\"\u{09AA}\u{09BE}\u{09B0}\u{0995}\",\"ami\":\"\u{0986}\u{09AE}\u{0987}\"}";
 
 const VALUES: &[&str] = &["kkk", "ttt", "amader", "ekademi", "Onyo", "tOmar", "a"];
 
@@ -112,10 +120,27 @@ pub fn run_case(c: &Case, st: &mut Stats) -> Result<(), Failure> {
         write_ac(d, &mut clock);
     }
     let pf = |p: crate::driver::PanicInfo| fail(&panic_kind(&p), p.to_string(), c);
+    if c.store0 {
+        std::fs::write(sb.selection_file(), STORE0).expect("store");
+        st.label("store-exists-before-creation");
+    }
     let mut a = Ctx::new(cfg1, &sb).map_err(pf)?;
-    // H1
+    // H1 (and, optionally, an earlier update-engine with more words)
     let mut h1_words: Vec<String> = vec![];
-    for s in &c.h1 {
+    let mid_steps: Vec<(Option<Opts>, &WordStep)> = c.h1.iter().map(|s| (None, s)).chain(c.mid.iter().flat_map(|(cfg, steps)| {
+        let o = Opts::parse(cfg);
+        steps.iter().enumerate().map(move |(i, s)| (if i == 0 { Some(o) } else { None }, s))
+    })).collect();
+    if c.mid.is_some() {
+        st.label("two-updates");
+    }
+    for (switch, s) in mid_steps {
+        if let Some(o) = switch {
+            if a.ongoing() {
+                a.finish().map_err(pf)?;
+            }
+            a.update(o, &sb).map_err(pf)?;
+        }
         let w = word_of(&s.pick, &h1_words);
         if !w.chars().all(|ch| keys().has_char(ch)) {
             continue;
@@ -291,8 +316,25 @@ pub fn strategy() -> impl Strategy<Value = Case> {
         1 => any::<u8>().prop_map(Edit::RemoveKey),
         2 => Just(Edit::DeleteFile),
     ];
-    (cfgs, prop_oneof![1 => Just(None), 1 => any::<u8>().prop_map(Some)], proptest::collection::vec(step(), 0..5), edit, proptest::collection::vec(step(), 1..6))
-        .prop_map(|((cfg1, cfg2), ac0, h1, edit, h2)| Case { cfg1, cfg2, ac0, h1, edit, h2 })
+    let mid = prop_oneof![
+        2 => Just(None),
+        1 => (0usize..3, 0u16..2048, proptest::collection::vec(step(), 1..4)).prop_map(|(l, b, steps)| Some((crate::driver::Opts::from_bits(l, b | 0b110).letters(), steps))),
+    ];
+    (cfgs, prop_oneof![1 => Just(None), 1 => any::<u8>().prop_map(Some)], proptest::collection::vec(step(), 0..5), edit, proptest::collection::vec(step(), 1..6), any::<bool>(), mid)
+        .prop_map(|((cfg1, cfg2), ac0, h1, edit, h2, store0, mid)| {
+            // the middle configuration keeps the layout of cfg1 half of the time (option flips only)
+            let mid = mid.map(|(m, steps): (String, Vec<WordStep>)| {
+                let mut o = crate::driver::Opts::parse(&m);
+                if steps.len() % 2 == 0 {
+                    o.layout = crate::driver::Opts::parse(&cfg1).layout;
+                    let c2 = crate::driver::Opts::parse(&cfg2);
+                    o.psug = !c2.psug;
+                    o.fsug = !c2.fsug;
+                }
+                (o.letters(), steps)
+            });
+            Case { cfg1, cfg2, ac0, h1, edit, h2, store0, mid }
+        })
 }
 
 pub fn run(run: &Run) {
@@ -300,6 +342,8 @@ pub fn run(run: &Run) {
     run.require_label("edit-touches-word-typed-before-and-after", 50);
     run.require_label("layout-changes", 100);
     run.require_label("file-deleted", 20);
+    run.require_label("store-exists-before-creation", 100);
+    run.require_label("two-updates", 100);
 }
 
 pub fn replay(_run: &Run, case: &Value) -> Result<(), Failure> {
